@@ -882,10 +882,15 @@ impl Resolver {
                     var,
                     span,
                     variables: variables.iter().map(|var| var.name.clone()).collect(),
-                    fields: fields
-                        .iter()
-                        .map(|(field, ty)| Ok((field.name.clone(), (field.span, self.ty(ty)?))))
-                        .collect::<ResolveResult<_>>()?,
+                    fields: {
+                        // In source order, so that the error reported does not depend on hash order.
+                        let mut sorted: Vec<_> = fields.iter().collect();
+                        sorted.sort_by_key(|(field, _)| (field.span.line_start, field.span.col_start));
+                        sorted
+                            .into_iter()
+                            .map(|(field, ty)| Ok((field.name.clone(), (field.span, self.ty(ty)?))))
+                            .collect::<ResolveResult<_>>()?
+                    },
                     external: *external,
                 })
             }
@@ -896,10 +901,15 @@ impl Resolver {
                     var,
                     span,
                     variables: variables.iter().map(|var| var.name.clone()).collect(),
-                    variants: variants
-                        .iter()
-                        .map(|(var, ty)| Ok((var.name.clone(), (var.span, self.ty(ty)?))))
-                        .collect::<ResolveResult<_>>()?,
+                    variants: {
+                        // In source order, so that the error reported does not depend on hash order.
+                        let mut sorted: Vec<_> = variants.iter().collect();
+                        sorted.sort_by_key(|(var, _)| (var.span.line_start, var.span.col_start));
+                        sorted
+                            .into_iter()
+                            .map(|(var, ty)| Ok((var.name.clone(), (var.span, self.ty(ty)?))))
+                            .collect::<ResolveResult<_>>()?
+                    },
                 })
             }
 
